@@ -157,14 +157,21 @@ class Executor(ResolutionContext):
             parent_value, self.context_value, info
         )
 
+        ended = []
+
         def fail(err):
             self.add_error(err, path, node)
-            self.instrumentation.on_field_end(
-                parent_value, self.context_value, info
-            )
+            # `complete` may have fired the hook already: the error can also
+            # come from completing the value (lazy iterables, type resolvers).
+            if not ended:
+                ended.append(True)
+                self.instrumentation.on_field_end(
+                    parent_value, self.context_value, info
+                )
             return None
 
         def complete(res):
+            ended.append(True)
             self.instrumentation.on_field_end(
                 parent_value, self.context_value, info
             )
